@@ -301,6 +301,51 @@ def _stop_rule(ctx, repo, worker, lp, pre, env, facts, interior, NB, T, S, fs0):
     ctx.shared["C06.count"] = cnt
 
 
+def _first_batch_is_real(ctx, repo, worker, lp, pre, env, facts, T):
+    """A worker processes the batch at its start `first_s` unconditionally (do-while loop / range with at least one element).  For worker i > 0 that grid point is a batch of the
+    recording only when the batch before it did not reach the end: first_s + 2*TAPER < ns.  Otherwise the worker must leave before it opens anything:
+    `if first_s > 0 and first_s + 2*TAPER >= ns: return` ahead of the loop (any spelling of the two comparisons)."""
+    F = Poly.sym("F")
+    need = F + Poly.const(2) * T - Poly.sym("_sr.ns")      # >= 0  <=>  nothing left for this worker
+    ok = False
+    where = None
+    for st in pre:
+        if not (isinstance(st, ast.If) and not st.orelse and st.body and isinstance(st.body[-1], ast.Return)):
+            continue
+        cj = [t for t, pol in conjuncts(st.test, True) if pol]
+        has_pos = any(isinstance(t, ast.Compare) and len(t.ops) == 1 and loc_name(t.left) in ("first_s", "i_chunk", "n_batch") and const_value(t.comparators[0]) == (True, 0)
+                      and isinstance(t.ops[0], (ast.Gt, ast.NotEq)) for t in cj)
+        has_end = False
+        for t in cj:
+            if not (isinstance(t, ast.Compare) and len(t.ops) == 1):
+                continue
+            ev = Evaluator(env=dict(env), facts=facts.copy(), resolve=lambda x: repo.resolve_expr(worker, x))
+            sx = SymExec(ev, on_undecided="havoc")
+            try:
+                _step_pre(worker, lp, [x for x in pre if x is not st and pre.index(x) < pre.index(st)], sx, ev)
+                start = ev.env.get("first_s")
+                if isinstance(lp, ast.For):
+                    start = ev.ev(_range_of(worker, lp)[0])
+                if start is None:
+                    continue
+                need = start + Poly.const(2) * T - Poly.sym("_sr.ns")
+                l_, r_ = ev.ev(t.left), ev.ev(t.comparators[0])
+            except (Undecided, AnalysisError):
+                continue
+            op = type(t.ops[0])
+            d = (l_ - r_) if op in (ast.GtE, ast.Gt) else (r_ - l_) if op in (ast.LtE, ast.Lt) else None
+            if d is not None and ((op in (ast.GtE, ast.LtE) and d == need) or (op in (ast.Gt, ast.Lt) and d == need + Poly.const(1))):
+                has_end = True
+        if has_pos and has_end:
+            ok, where = True, st
+    ctx.check(ok, worker, where if where is not None else lp, src(where.test)[:80] if where is not None else "no early return for a start in the last 2*TAPER samples",
+              "a worker whose first grid point lies in the last 2*TAPER samples (the batch before it already reaches the end) leaves without processing anything",
+              "a worker always processes the batch at its start: when that start lies within the last 2 * SAMPLES_TAPER samples of the recording (short recordings / many workers: "
+              "e.g. 19700 samples, nbatch 8192, 6 workers) the batch before it already reached the end, and this worker adds a batch no other worker count has - an extra row in the RMS and "
+              "timestamp files, saturation flags and the tail of the output rewritten from a double-tapered stub (a start at or past the end raises on an empty chunk)",
+              key="ghost-batch", name_free=True)
+
+
 def _stop_rule_start_ownership(ctx, repo, worker, lp, pre, env, facts, NB, T, S):
     """Worker i handles the batches whose START lies in its chunk: `while first_s < max_s` with max_s = (i+1)*CHUNK_SIZE (ns for the last worker) covers every grid point once.
     But not every grid point below ns is a batch: the sequence of batches ends with the first one that reaches the end of the recording, so a start f > 0 is a batch only
@@ -625,6 +670,7 @@ def d1_tiling(ctx):
         _stop_rule_start_ownership(ctx, repo, worker, lp, pre, env, facts, NB, T, S)
     else:
         _stop_rule(ctx, repo, worker, lp, pre, env, facts, interior, NB, T, S, fs0)
+        _first_batch_is_real(ctx, repo, worker, lp, pre, env, facts, T)
     cs = env.get("CHUNK_SIZE")
     if ctx.shared.get("C06.ownership") is not None:
         P_, total_, nw_ = ctx.shared["C06.ownership"]
